@@ -176,6 +176,15 @@ fn evaluate_expression<'data, P: Platform>(
     }
 }
 
+/// Evaluates an expression that refers to no sections, symbols or memory regions.
+#[cfg(feature = "verif_hooks")]
+pub(crate) fn verif_eval_const(expr: &Expression<'_>) -> Result<u64> {
+    use crate::elf::Elf;
+    let sections = OutputSections::<Elf>::with_base_address(0x1000);
+    let layouts = sections.new_section_map::<OutputRecordLayout>();
+    evaluate_expression::<Elf>(expr, &layouts, &sections, &|_| {}, &[])
+}
+
 fn section_size<'data, P: Platform>(
     name: &[u8],
     section_layouts: &OutputSectionMap<OutputRecordLayout>,
